@@ -153,15 +153,58 @@ pub open spec fn distinct_uris(d: DeltaElements) -> bool {
     &&& forall |i: int, j: int| 0 <= i < d.publishes@.len() && 0 <= j < d.withdraws@.len() ==> d.publishes@[i].uri != d.withdraws@[j].uri
     &&& forall |i: int, j: int| 0 <= i < d.updates@.len() && 0 <= j < d.withdraws@.len() ==> d.updates@[i].uri != d.withdraws@[j].uri
 }
-// the element of d (if any) that addresses k, restricted to the first np publishes, nu updates, nw withdraws
-pub open spec fn hit_p(d: DeltaElements, np: int, k: uri::Rsync) -> bool { exists |i: int| 0 <= i < np && #[trigger] d.publishes@[i].uri == k }
-pub open spec fn hit_u(d: DeltaElements, nu: int, k: uri::Rsync) -> bool { exists |i: int| 0 <= i < nu && #[trigger] d.updates@[i].uri == k }
-pub open spec fn hit_w(d: DeltaElements, nw: int, k: uri::Rsync) -> bool { exists |i: int| 0 <= i < nw && #[trigger] d.withdraws@[i].uri == k }
+
+pub open spec fn has_p(d: DeltaElements, k: uri::Rsync) -> bool { exists |i: int| 0 <= i < d.publishes@.len() && #[trigger] d.publishes@[i].uri == k }
+pub open spec fn has_u(d: DeltaElements, k: uri::Rsync) -> bool { exists |i: int| 0 <= i < d.updates@.len() && #[trigger] d.updates@[i].uri == k }
+pub open spec fn has_w(d: DeltaElements, k: uri::Rsync) -> bool { exists |i: int| 0 <= i < d.withdraws@.len() && #[trigger] d.withdraws@[i].uri == k }
+pub open spec fn pi(d: DeltaElements, k: uri::Rsync) -> int { choose |i: int| 0 <= i < d.publishes@.len() && #[trigger] d.publishes@[i].uri == k }
+pub open spec fn ui(d: DeltaElements, k: uri::Rsync) -> int { choose |i: int| 0 <= i < d.updates@.len() && #[trigger] d.updates@[i].uri == k }
+pub open spec fn wi(d: DeltaElements, k: uri::Rsync) -> int { choose |i: int| 0 <= i < d.withdraws@.len() && #[trigger] d.withdraws@[i].uri == k }
 pub open spec fn expect(o: Map<uri::Rsync, DeltaElement>, d: DeltaElements, np: int, nu: int, nw: int, k: uri::Rsync) -> Option<DeltaElement> {
-    if hit_p(d, np, k) { let i = choose |i: int| 0 <= i < np && #[trigger] d.publishes@[i].uri == k; merge1(get_opt(o, k), DeltaElement::Publish(d.publishes@[i])) }
-    else if hit_u(d, nu, k) { let i = choose |i: int| 0 <= i < nu && #[trigger] d.updates@[i].uri == k; merge1(get_opt(o, k), DeltaElement::Update(d.updates@[i])) }
-    else if hit_w(d, nw, k) { let i = choose |i: int| 0 <= i < nw && #[trigger] d.withdraws@[i].uri == k; merge1(get_opt(o, k), DeltaElement::Withdraw(d.withdraws@[i])) }
+    if has_p(d, k) && pi(d, k) < np { merge1(get_opt(o, k), DeltaElement::Publish(d.publishes@[pi(d, k)])) }
+    else if has_u(d, k) && ui(d, k) < nu { merge1(get_opt(o, k), DeltaElement::Update(d.updates@[ui(d, k)])) }
+    else if has_w(d, k) && wi(d, k) < nw { merge1(get_opt(o, k), DeltaElement::Withdraw(d.withdraws@[wi(d, k)])) }
     else { get_opt(o, k) }
+}
+// under distinctness the chosen index is the unique one
+pub proof fn lemma_pi(d: DeltaElements, i: int)
+    requires distinct_uris(d), 0 <= i < d.publishes@.len()
+    ensures has_p(d, d.publishes@[i].uri), pi(d, d.publishes@[i].uri) == i, !has_u(d, d.publishes@[i].uri), !has_w(d, d.publishes@[i].uri)
+{
+    let k = d.publishes@[i].uri;
+    assert(d.publishes@[i].uri == k);
+    let j = pi(d, k);
+    assert(0 <= j < d.publishes@.len() && d.publishes@[j].uri == k);
+    if j < i { assert(d.publishes@[j].uri != d.publishes@[i].uri); }
+    if i < j { assert(d.publishes@[i].uri != d.publishes@[j].uri); }
+    if has_u(d, k) { let x = ui(d, k); assert(d.publishes@[i].uri != d.updates@[x].uri); }
+    if has_w(d, k) { let x = wi(d, k); assert(d.publishes@[i].uri != d.withdraws@[x].uri); }
+}
+pub proof fn lemma_ui(d: DeltaElements, i: int)
+    requires distinct_uris(d), 0 <= i < d.updates@.len()
+    ensures has_u(d, d.updates@[i].uri), ui(d, d.updates@[i].uri) == i, !has_p(d, d.updates@[i].uri), !has_w(d, d.updates@[i].uri)
+{
+    let k = d.updates@[i].uri;
+    assert(d.updates@[i].uri == k);
+    let j = ui(d, k);
+    assert(0 <= j < d.updates@.len() && d.updates@[j].uri == k);
+    if j < i { assert(d.updates@[j].uri != d.updates@[i].uri); }
+    if i < j { assert(d.updates@[i].uri != d.updates@[j].uri); }
+    if has_p(d, k) { let x = pi(d, k); assert(d.publishes@[x].uri != d.updates@[i].uri); }
+    if has_w(d, k) { let x = wi(d, k); assert(d.updates@[i].uri != d.withdraws@[x].uri); }
+}
+pub proof fn lemma_wi(d: DeltaElements, i: int)
+    requires distinct_uris(d), 0 <= i < d.withdraws@.len()
+    ensures has_w(d, d.withdraws@[i].uri), wi(d, d.withdraws@[i].uri) == i, !has_p(d, d.withdraws@[i].uri), !has_u(d, d.withdraws@[i].uri)
+{
+    let k = d.withdraws@[i].uri;
+    assert(d.withdraws@[i].uri == k);
+    let j = wi(d, k);
+    assert(0 <= j < d.withdraws@.len() && d.withdraws@[j].uri == k);
+    if j < i { assert(d.withdraws@[j].uri != d.withdraws@[i].uri); }
+    if i < j { assert(d.withdraws@[i].uri != d.withdraws@[j].uri); }
+    if has_p(d, k) { let x = pi(d, k); assert(d.publishes@[x].uri != d.withdraws@[i].uri); }
+    if has_u(d, k) { let x = ui(d, k); assert(d.updates@[x].uri != d.withdraws@[i].uri); }
 }
 impl StagedElements {
 /// Merge a new DeltaElements into this existing (unpublished)
@@ -212,6 +255,8 @@ impl StagedElements {
                 forall |k: uri::Rsync| get_opt(self.0@, k) == #[trigger] expect(old(self).0@, elements, vx_it.index@ as int, 0, 0, k),
 
 {
+            let ghost m0 = self.0@; let ghost i0 = vx_it.index@ as int;
+            proof { lemma_pi(elements, i0); assert(pbl == elements.publishes@[i0]); }
             let uri = pbl.uri.clone();
             match self.0.get_mut(&uri) {
                 Some(DeltaElement::Publish(staged_publish)) => {
@@ -239,6 +284,15 @@ impl StagedElements {
                     self.0.insert(uri, DeltaElement::Publish(pbl));
                 }
             }
+            proof {
+                assert forall |k: uri::Rsync| get_opt(self.0@, k) == #[trigger] expect(old(self).0@, elements, i0 + 1, 0, 0, k) by {
+                    assert(get_opt(m0, k) == expect(old(self).0@, elements, i0, 0, 0, k));
+                    if k == elements.publishes@[i0].uri {
+                    } else {
+                        if has_p(elements, k) { let j = pi(elements, k); assert(elements.publishes@[j].uri == k); assert(j != i0); }
+                    }
+                }
+            }
         }
 
         for mut upd in vx_it: updates 
@@ -247,6 +301,8 @@ impl StagedElements {
                 forall |k: uri::Rsync| get_opt(self.0@, k) == #[trigger] expect(old(self).0@, elements, elements.publishes@.len() as int, vx_it.index@ as int, 0, k),
 
 {
+            let ghost m0 = self.0@; let ghost i0 = vx_it.index@ as int;
+            proof { lemma_ui(elements, i0); assert(upd == elements.updates@[i0]); }
             let uri = upd.uri.clone();
             match self.0.get_mut(&uri) {
                 Some(DeltaElement::Publish(staged_publish)) => {
@@ -279,6 +335,15 @@ impl StagedElements {
                     self.0.insert(uri, DeltaElement::Update(upd));
                 }
             }
+            proof {
+                assert forall |k: uri::Rsync| get_opt(self.0@, k) == #[trigger] expect(old(self).0@, elements, elements.publishes@.len() as int, i0 + 1, 0, k) by {
+                    assert(get_opt(m0, k) == expect(old(self).0@, elements, elements.publishes@.len() as int, i0, 0, k));
+                    if k == elements.updates@[i0].uri {
+                    } else {
+                        if has_u(elements, k) { let j = ui(elements, k); assert(elements.updates@[j].uri == k); assert(j != i0); }
+                    }
+                }
+            }
         }
 
         for mut wdr in vx_it: withdraws 
@@ -287,6 +352,8 @@ impl StagedElements {
                 forall |k: uri::Rsync| get_opt(self.0@, k) == #[trigger] expect(old(self).0@, elements, elements.publishes@.len() as int, elements.updates@.len() as int, vx_it.index@ as int, k),
 
 {
+            let ghost m0 = self.0@; let ghost i0 = vx_it.index@ as int;
+            proof { lemma_wi(elements, i0); assert(wdr == elements.withdraws@[i0]); }
             let uri = wdr.uri.clone();
             match self.0.get(&uri) {
                 Some(DeltaElement::Publish(_)) => {
@@ -316,6 +383,15 @@ impl StagedElements {
                     // the withdraw as-is. It should match
                     // the current file in public RRDP.
                     self.0.insert(uri, DeltaElement::Withdraw(wdr));
+                }
+            }
+            proof {
+                assert forall |k: uri::Rsync| get_opt(self.0@, k) == #[trigger] expect(old(self).0@, elements, elements.publishes@.len() as int, elements.updates@.len() as int, i0 + 1, k) by {
+                    assert(get_opt(m0, k) == expect(old(self).0@, elements, elements.publishes@.len() as int, elements.updates@.len() as int, i0, k));
+                    if k == elements.withdraws@[i0].uri {
+                    } else {
+                        if has_w(elements, k) { let j = wi(elements, k); assert(elements.withdraws@[j].uri == k); assert(j != i0); }
+                    }
                 }
             }
         }
